@@ -102,7 +102,10 @@ def m_F07(case, backend, f):
         group = []
         for st in p["steps"]:
             if st[0] == "group_by":
-                group = [e[-1] for e in st[1]]
+                group = (group if st[2] else []) + [e[-1] for e in st[1]]
+            if st[0] == "rename":
+                mp = {(a[-1] if isinstance(a, list) else a): b for a, b in st[1]}
+                group = [mp.get(n, n) for n in group]
             if st[0] == "summarize" and any(n in group for n, _ in st[1]):
                 return True
     return False
@@ -174,7 +177,8 @@ def m_F21(case, backend, f):
 def m_F23(case, backend, f):
     if backend != "sqlite":
         return False
-    if not (f["kind"] == "rows" or (f.get("exc") == "OperationalError" and "non-aggregate" in (f.get("msg") or ""))):
+    if not (f["kind"] == "rows" or (f.get("exc") == "OperationalError" and
+                                   ("non-aggregate" in (f.get("msg") or "") or "misuse of aggregate" in (f.get("msg") or "")))):
         return False
     for p, i in ungrouped_summarize_points(case):
         if any(st[0] in ("select", "drop", "mutate", "summarize") for st in p["steps"][i + 1:]):
